@@ -50,6 +50,7 @@ def run(ns, op, timeout=120):
 # ---------------------------------------------------------------------------------------------
 # oracle
 # ---------------------------------------------------------------------------------------------
+BARE_ERROR_RE = __import__("re").compile(rb"^[^\n]*:\d+:\d+: Error: ", __import__("re").M)
 MUT_OPS = ("create", "truncate", "open-rw", "write", "close")
 
 
@@ -104,6 +105,14 @@ def check_basic(obs, case, ref_obs=None):
                   "exit status 0 although error-severity diagnostic(s) %s were issued" % sorted(set(e[1] for e in errs))[:3]))
     if st != 0 and not errs and not fatals:
         v.append(("failure-without-diagnostic", "exit status %r but no error-severity diagnostic and no fatal line" % st))
+    if st != 0 and errs and not fatals and not outs_f and not ins:
+        # the diagnostic must also reach the user: the selected handler has to SHOW an error-severity
+        # report (warning selection may hide warnings only)
+        shown = obs["stderr"].count("\x1b[91mError\x1b[0m in ") + len(BARE_ERROR_RE.findall(obs["stdout"]))
+        if shown == 0:
+            v.append(("failure-without-visible-diagnostic",
+                      "exit status %r and error diagnostic(s) %s were issued internally, but no error-severity diagnostic was shown "
+                      "on stdout/stderr" % (st, sorted(set(e[1] for e in errs))[:3])))
     if ins and st == 0:
         v.append(("input-io-error-swallowed", "an input-side I/O error %s occurred but the run reports success" % (ins[0],)))
     if outs_f and st == 0:
